@@ -191,7 +191,7 @@ pub fn payload_classes(ty: Ty, big: bool) -> Vec<Val> {
             Val::F(5e-324f64.to_bits()),
         ],
         Ty::S => {
-            let mut v = vec![Val::S("a".into()), Val::S("".into()), Val::S("é".into())];
+            let mut v = vec![Val::S("a".into()), Val::S("".into()), Val::S("é".into()), Val::S("0123456789abcdefghij".into())];
             if big {
                 v.push(Val::S("x".repeat(127)));
                 v.push(Val::S("y".repeat(128)));
@@ -199,7 +199,7 @@ pub fn payload_classes(ty: Ty, big: bool) -> Vec<Val> {
             v
         }
         Ty::B => {
-            let mut v = vec![Val::B(vec![0x42]), Val::B(vec![]), Val::B(vec![0x81, 0x80])];
+            let mut v = vec![Val::B(vec![0x42]), Val::B(vec![]), Val::B(vec![0x81, 0x80]), Val::B((0..40u8).collect())];
             if big {
                 v.push(Val::B(vec![0xab; 126]));
                 v.push(Val::B(vec![0xcd; 127]));
